@@ -238,7 +238,16 @@ func (bucket *Bucket) getOrCreateCollection(name sgbucket.DataStoreNameImpl, orC
 	defer bucket.mutex.Unlock()
 
 	if collection, ok := bucket.collections[name]; ok {
-		return collection, nil
+		if name.IsDefault() {
+			return collection, nil
+		}
+		// Another handle on this bucket may have dropped (and re-created) the collection since
+		// this handle cached it; a cached object whose id is gone refers to nothing.
+		id, err := bucket._getCollectionID(name.Scope, name.Collection)
+		if !(err == sql.ErrNoRows || (err == nil && id != collection.id)) {
+			return collection, nil
+		}
+		delete(bucket.collections, name)
 	}
 
 	id, err := bucket._getCollectionID(name.Scope, name.Collection)
